@@ -92,6 +92,13 @@ class TupleV:
 
 
 @dataclass
+class OptV:
+    """Optional[int]: `none` (z3 Bool) says the value is None, otherwise `v` (z3 Int) is the integer"""
+    none: object
+    v: object
+
+
+@dataclass
 class FuncV:
     kind: str                      # 'uf' | 'closure' | 'contract'
     data: object = None
@@ -120,6 +127,8 @@ def elem_term(lst_elem: str, v):
             return NONE_INT
         if isinstance(v, IntV):
             return v.t
+        if isinstance(v, OptV):
+            return v.v
     if lst_elem == "bool" and isinstance(v, BoolV):
         return v.t
     if lst_elem == "obj":
@@ -238,6 +247,10 @@ class Executor:
             return BoolV(z3.Bool(name))
         if ty == "none":
             return NoneV()
+        if ty == "opt[int]":
+            return OptV(z3.Bool(name + "_is_none"), z3.Int(name))
+        if ty.startswith("tuple["):
+            return TupleV([self.make_param(f"{name}.{i}", t) for i, t in enumerate(_split_top(ty[6:-1]))])
         if ty.startswith("list["):
             inner = ty[5:-1]
             ek = {"int": "int", "obj": "obj", "bool": "bool", "list[int]": "list[int]"}.get(inner)
@@ -276,9 +289,20 @@ class Executor:
             return (v.t != NONE_OBJ) if v.maybe_none else z3.BoolVal(True)
         if isinstance(v, TupleV):
             return z3.BoolVal(len(v.items) > 0)
+        if isinstance(v, OptV):
+            return z3.Not(v.none)          # a wrapped object (e.g. Var) is truthy, None is not
         raise OutOfSubset(f"truthiness of {type(v).__name__}")
 
     def eq(self, a, b, st):
+        if isinstance(a, OptV) or isinstance(b, OptV):
+            o, x = (a, b) if isinstance(a, OptV) else (b, a)
+            if isinstance(x, NoneV):
+                return o.none
+            if isinstance(x, OptV):
+                return z3.And(o.none == x.none, z3.Implies(z3.Not(o.none), o.v == x.v))
+            if isinstance(x, (IntV, BoolV)):
+                return z3.And(z3.Not(o.none), o.v == self.as_int(x))
+            return z3.BoolVal(False)
         if isinstance(a, NoneV) or isinstance(b, NoneV):
             o = b if isinstance(a, NoneV) else a
             if isinstance(o, NoneV):
@@ -314,6 +338,8 @@ class Executor:
             return v.t
         if isinstance(v, BoolV):
             return z3.If(v.t, 1, 0)
+        if isinstance(v, OptV):
+            return v.v                      # only meaningful where the contract has established `not is_none`
         raise OutOfSubset(f"expected int, got {type(v).__name__}")
 
     def divmod_(self, a, b, st, what, spec=False):
@@ -476,7 +502,19 @@ class Executor:
             return ListV(z3.If(c, a.arr, b.arr), z3.If(c, a.n, b.n), a.elem)
         if isinstance(a, ObjV) and isinstance(b, ObjV):
             return ObjV(z3.If(c, a.t, b.t))
+        if isinstance(a, (OptV, NoneV, IntV)) and isinstance(b, (OptV, NoneV, IntV)):
+            oa, ob = self.as_opt(a), self.as_opt(b)
+            return OptV(z3.If(c, oa.none, ob.none), z3.If(c, oa.v, ob.v))
         raise OutOfSubset("conditional expression over unsupported values")
+
+    def as_opt(self, v):
+        if isinstance(v, OptV):
+            return v
+        if isinstance(v, NoneV):
+            return OptV(z3.BoolVal(True), z3.IntVal(0))
+        if isinstance(v, IntV):
+            return OptV(z3.BoolVal(False), v.t)
+        raise OutOfSubset("expected Optional[int]")
 
     def ev_Tuple(self, node, st, spec):
         return TupleV([self.ev(e, st, spec) for e in node.elts])
@@ -643,7 +681,11 @@ class Executor:
         sub = State()
         sub.pc = st.pc
         for (pn, pty), v in zip(callee["params"].items(), args):
+            if pty == "opt[int]":
+                v = self.as_opt(v)
             sub.env[pn] = v
+        for gname, gexpr in callee.get("ghost_args", {}).items():      # ghost state of the caller visible to the callee's contract
+            sub.env[gname] = self.ev(_parse(gexpr), st, True)
         sub.old = dict(sub.env)
         for k, r in enumerate(callee.get("requires", [])):
             g = self.truth(self.ev(_parse(r), sub, True), sub)
@@ -651,7 +693,9 @@ class Executor:
         res = self.make_param(f"{name}_res!{next(_fresh)}", callee.get("returns", "none"))
         sub.env["result"] = res
         for r in callee.get("ensures", []):
-            st.pc.append(self.truth(self.ev(_parse(r), sub, True), sub))
+            fact = self.truth(self.ev(_parse(r), sub, True), sub)
+            st.pc.append(fact)
+        self.run_ghost(callee.get("ghost_after", []), st)                # effect of the call on the caller's ghost state
         return res
 
     # ---- specification vocabulary ---------------------------------------------------------------
@@ -709,6 +753,14 @@ class Executor:
             return IntV(Pow2(self.as_int(self.ev(a[0], st, True))))
         if name == "is_none" and len(a) == 1:
             return BoolV(self.eq(self.ev(a[0], st, True), NoneV(), st))
+        if name in self.c.get("macros", {}):
+            params, body = self.c["macros"][name]
+            sub = st.clone()
+            for pn, an in zip(params, a):
+                sub.env[pn] = self.ev(an, st, True)
+            r = self.ev(_parse(body), sub, True)
+            self.carry_defs(sub, st)
+            return r
         if name in self.c.get("spec_funcs", {}):
             sig = self.c["spec_funcs"][name]
             if name not in self.ufs:
@@ -785,6 +837,8 @@ class Executor:
 
     def assign(self, target, val, st):
         if isinstance(target, ast.Name):
+            if isinstance(st.env.get(target.id), OptV) and isinstance(val, (IntV, NoneV)):
+                val = self.as_opt(val)
             st.env[target.id] = val
         elif isinstance(target, (ast.Tuple, ast.List)):
             if isinstance(val, TupleV) and len(val.items) == len(target.elts):
@@ -918,8 +972,10 @@ class Executor:
                 st.pc.append(st.env[nm].n >= 0)
             elif isinstance(v, ObjV):
                 st.env[nm] = ObjV(fresh(nm, Obj), {}, v.maybe_none)
+            elif isinstance(v, OptV):
+                st.env[nm] = OptV(fresh(nm + "_none", z3.BoolSort()), fresh(nm, z3.IntSort()))
             elif isinstance(v, NoneV):
-                raise OutOfSubset(f"loop modifies {nm} which is None at loop entry (declare its type via ghost init)")
+                raise OutOfSubset(f"loop modifies {nm} which is None at loop entry (declare its type in the loop spec: types={{'{nm}': 'opt[int]'}})")
             else:
                 raise OutOfSubset(f"cannot havoc {nm}")
 
@@ -1023,6 +1079,10 @@ class Executor:
                          auto_inv=lambda stx: z3.And(0 <= stx.env[idx].t, stx.env[idx].t <= z3.If(cnt > 0, cnt, 0)), for_targets=targets, target_node=s.target)
 
     def loop(self, k, spec, st, body, cond, bind, step, auto_dec, extra_mod, auto_inv=None, for_targets=(), target_node=None):
+        # declared types of variables whose kind changes in the loop (None -> value)
+        for nm, ty in spec.get("types", {}).items():
+            if ty == "opt[int]" and nm in st.env:
+                st.env[nm] = self.as_opt(st.env[nm])
         # ghost initialisation
         self.run_ghost(spec.get("ghost_init", []), st)
         st.env[f"§entry{k}"] = TupleV([])
@@ -1036,6 +1096,13 @@ class Executor:
         mod = set(self.modified_names(body)) | set(extra_mod)
         for src in ghost_src:
             mod |= self.modified_names(ast.parse(textwrap.dedent(src)).body)
+        # ghost state changed by contract callees invoked in the body (their ghost_after statements)
+        for n in ast.walk(ast.Module(body=body, type_ignores=[])):
+            if isinstance(n, ast.Call):
+                callee = self.c.get("uses", {}).get(ast.unparse(n.func))
+                if callee:
+                    for src in callee.get("ghost_after", []):
+                        mod |= self.modified_names(ast.parse(textwrap.dedent(src)).body)
         head = st.clone()
         # targets of a for loop are (re)bound at the start of each iteration, everything else assigned in the body is havoced
         self.havoc(head, sorted(m for m in mod if m in head.env and m not in for_targets))
@@ -1142,6 +1209,8 @@ class Executor:
             st.env[a] = self.make_param(a, c["params"][a])
             if isinstance(st.env[a], ListV):
                 st.pc.append(st.env[a].n >= 0)
+        for fv, fty in c.get("free_vars", {}).items():      # captured variables of a nested function
+            st.env[fv] = self.make_param(fv, fty)
         extra_params = [p for p in c["params"] if p not in args]
         if extra_params:
             raise OutOfSubset(f"contract declares unknown parameters {extra_params}")
@@ -1305,8 +1374,10 @@ def locate(target: str, transform=None):
     node = tree
     for part in qual.split("."):
         found = None
-        for ch in ast.iter_child_nodes(node):
-            if isinstance(ch, (ast.FunctionDef, ast.ClassDef)) and ch.name == part:
+        inner = part.startswith("<") and part.endswith(">")      # a function defined inside the previous one
+        part = part.strip("<>")
+        for ch in (ast.walk(node) if inner else ast.iter_child_nodes(node)):
+            if isinstance(ch, (ast.FunctionDef, ast.ClassDef)) and ch.name == part and ch is not node:
                 found = ch
         if found is None:
             raise LookupError(f"{target}: {part} not found in {src_file}")
